@@ -1355,17 +1355,45 @@ func c10ConstantRefToEnum(ctx *Ctx, r *Report) {
 					return true
 				}
 				n++
-				guarded := false
-				for _, ctl := range controllingIfs(parents, fd, c) {
-					if strings.Contains(exprString(ctl.Cond), "IsEnum()") {
-						guarded = true
+				// an exit for "not an enum" on every way to the constructor: an `if` that tests enum-ness and returns, either
+				// directly before the call or — when the test depends on where the object lives (`refPkg == schema.Package`) —
+				// in both arms of that distinction
+				testsEnum := func(b ast.Node) bool {
+					found := false
+					if b == nil {
+						return false
 					}
-					ast.Inspect(ctl.Body, func(q ast.Node) bool {
-						if is, ok := q.(*ast.IfStmt); ok && strings.Contains(exprString(is.Cond), "IsEnum()") {
-							guarded = true
+					ast.Inspect(b, func(q ast.Node) bool {
+						if is, ok := q.(*ast.IfStmt); ok && len(is.Body.List) > 0 {
+							txt := exprString(is.Cond)
+							if _, rets := is.Body.List[len(is.Body.List)-1].(*ast.ReturnStmt); rets && (strings.Contains(txt, "IsEnum()") || strings.Contains(strings.ToLower(txt), "isenum")) {
+								found = true
+							}
 						}
 						return true
 					})
+					return found
+				}
+				guarded := false
+				for _, ctl := range controllingIfs(parents, fd, c) {
+					txt := exprString(ctl.Cond)
+					if strings.Contains(txt, "IsEnum()") || strings.Contains(strings.ToLower(txt), "isenum") {
+						guarded = true
+						continue
+					}
+					if containsNode(ctl, c) {
+						continue // an enclosing condition: only what it tests counts, not what its body holds
+					}
+					if strings.Contains(txt, "Package") {
+						// both arms have to test
+						if ctl.Else != nil && testsEnum(ctl.Body) && testsEnum(ctl.Else) {
+							guarded = true
+						}
+						continue
+					}
+					if testsEnum(ctl.Body) && ctl.Else == nil && !strings.Contains(txt, "Package") {
+						guarded = true
+					}
 				}
 				r.Check(guarded, "frontier/constant-ref-to-enum", fmt.Sprintf("%s builds a constant reference", ctx.FuncName(fobj)), c.Pos(), "after establishing that the referred object is an enum",
 					fmt.Sprintf("%s builds a constant reference without testing that the referred object is an enum: `kind: #Name & \"fixed\"` with `#Name: string` becomes a reference to a member that does not exist — the Go constructor loses the constant, Python emits `unknown`", ctx.FuncName(fobj)))
